@@ -236,6 +236,20 @@ func TestC07(t *testing.T) {
 	rec := ev.New(t, "C07")
 	rec.Rule("fault enumeration: for every rapid-generated ring (2..5 real LocalNodes with ids next to the keys' hashes, 5..20 acknowledged keys with values and prefix children, generated joiner position / leaver) the COMPLETE product {RequestToJoin, Import, FinishJoin(stabilize), FinishJoin(release)} x {join} and {RequestToLeave, Import, FinishLeave(stabilize), FinishLeave(release)} x {leave} x {request dropped before delivery, delivered but response lost (caller sees a deadline error)} x {first occurrence, first three occurrences, every occurrence until the attempt has exhausted its retries, every occurrence but the first} = 64 cells (the two persistent patterns for the first ring only in the quick tier); rings hold 5..20 or 100..400 acknowledged keys is executed: the fault is injected in the RPC proxy, the real Join/Leave runs to completion (incl. its retry loop), faults are cleared, the ring gets a quiet period of <= 80 maintenance rounds. Oracle: every remaining node is Active and every acknowledged key/child is readable with its value through every remaining node (retryable errors retried <= 60x). An evaluation is one (ring, cell); non-trivial: the fault actually fired. Distinct = (ring, cell).")
 	rec.Assume("faults are injected at the RPC boundary only (the proxy emulates RemoteNode: a lost response surfaces as context.DeadlineExceeded); nodes do not crash in this property")
+	// scenario tier: an attempt that fails without any injected fault, after the first lock was
+	// granted - the leaver itself is locked by a join when its successor's grant arrives
+	if p := leaveFailsLocallyAfterSuccessorGranted(); p != "" {
+		if len(p) > 13 && p[:13] == "precondition:" {
+			rec.Inconclusive("scenario-precondition")
+			t.Logf("leave-fails-locally scenario: %s", p)
+		} else {
+			rec.Fail(t, "leave:fails-at-the-leaver-after-grant:node-stuck-or-data-unreachable", map[string]any{"schedule": "ring {1<<44, 2<<44, 3<<44}; 3<<44 leaves: RequestToLeave to its successor 1<<44 is granted, the reply is held; 5<<43 joins via 3<<44 and gets its lock, the joiner's FinishJoin(release) is held; the grant is delivered; releases follow", "problem": p}, "%s", p)
+		}
+	} else {
+		rec.Case(true, "scenario:leave-fails-at-the-leaver-after-grant", func() any {
+			return map[string]any{"scenario": "leave attempt granted by the successor fails at the leaver itself (locked by a join): both must return to serving"}
+		}, "scenario:leave-fails-at-the-leaver-after-grant")
+	}
 	cells := c07Cells()
 	rec.Note("cells_per_ring", len(cells))
 	known := map[string]bool{}
